@@ -1,7 +1,9 @@
 (* C17 — JSON output is valid and carries the match data unchanged (the document model; validity
    of Go's encoding/json output itself is observed by the correspondence check). *)
 From Model Require Import Json.
+From Spec Require JsonParse.
 From Proofs Require Import JsonFields.
+From Proofs Require JsonRoundTrip.
 
 (* one object per match; under the documented keys it holds the in-memory match: filename,
    matchNumber, offset/line/column as {start,end}, value, variables (nested for named loops), and
@@ -28,6 +30,25 @@ Theorem C17_one_object_per_match :
   match matches_json fname ms with JArr xs => nth_error xs i = Some (match_json fname m) | _ => False end.
 Proof. exact matches_json_nth. Qed.
 Print Assumptions C17_one_object_per_match.
+
+(* Validity and faithfulness of BOTH renderings: a plain recursive-descent JSON reader (Spec/JsonParse.v:
+   objects, arrays, strings with escapes, integers, blanks between tokens; control characters in
+   strings must be escaped) reads the compact rendering and the tab-indented rendering of EVERY
+   document back as exactly that document - any nesting, any strings (quotes, backslashes, control
+   characters, <>&, bytes >= 0x80), any integers.  In particular the two renderings of a result list
+   are the same document, and it is the document of C17_match_json_fields. *)
+Theorem C17_compact_parses_back : forall j, JsonParse.jparse (compact j) = Some j.
+Proof. exact JsonRoundTrip.compact_parses_lemma. Qed.
+Print Assumptions C17_compact_parses_back.
+
+Theorem C17_indented_parses_back : forall j, JsonParse.jparse (indent 0 j) = Some j.
+Proof. exact JsonRoundTrip.indent_parses_lemma. Qed.
+Print Assumptions C17_indented_parses_back.
+
+(* more generally: the tokens of the compact form with ANY blanks between them *)
+Theorem C17_any_layout_parses_back : forall j s, JsonRoundTrip.Renders j s -> JsonParse.jparse s = Some j.
+Proof. exact JsonRoundTrip.renders_parse_lemma. Qed.
+Print Assumptions C17_any_layout_parses_back.
 
 Example C17_witness :
   compact (JObj [([97]%N, JStr [34; 10; 60]%N); ([98]%N, JArr [JNum (-3); JObj []])]) =
